@@ -236,6 +236,14 @@ def characterise_reader(facts, rb):
                 if x[0] == "bin" and x[1] == "Rem" and x[3][0] == "const" and any(y[0] == "call" and y[1].endswith("::tell") for y in walk(x[2])):
                     pad_mod = x[3][1]
     if impl is None:
+        # no byte-level decoder behind it: a reader that assembles 16-bit units itself with the archive's
+        # endian-aware accessor decodes in the *archive's* byte order
+        names = set((callee_names(t)[1] or callee_names(t)[0] or "") for bb, t in rb.calls())
+        u16s = [n for n in names if n.endswith("BinArchiveReader::<'a>::read_u16") or n.endswith("BinArchive::read_u16")]
+        dec16 = [n for n in names if n.endswith("String::from_utf16") or n.endswith("String::from_utf16_lossy") or n.endswith("char::decode_utf16")]
+        if u16s and dec16:
+            return {"encoding": "UTF_16(archive endianness)", "terminator": 2, "reads_per_unit": 2, "pad": pad_mod, "pad_skips": skips,
+                    "bom_sniffing": False, "decoders": sorted(dec16), "impl": rb.name, "unknown": None if skips else skip_unknown}
         return None
     ib = facts.body(impl)
     if ib is None:
@@ -438,6 +446,10 @@ def label_rules(facts, rep, R3, ser, par):
         i0 = nxt[0]
         push = [i for i, e in enumerate(evs) if i > i0 and e["callee"].endswith("::push") and e["args"][1][0] == "agg" and e["args"][1][1] == "tuple"]
         wr = [i for i, e in enumerate(evs) if i > i0 and e["callee"].startswith("mila::text_archive::write_")]
+        if push and not wr and p.end == "loop":
+            seen += 1
+            bad = "an entry gets a label address recorded (%s) without its message being written in that iteration: the key does not label the start of its own message" % fmt(evs[push[0]]["args"][1][4][1])[:50]
+            continue
         if not push or not wr:
             continue
         seen += 1
